@@ -48,6 +48,16 @@ for key, what in (
     findings.append(dict(property='C05', rule='C05.extra' if key.endswith('results') else 'C05.rows', key=key, status='known',
                          what=XR + ' ' + what, why_not_fixed='needs a redesign of the label-to-index reconstruction in XarrayStream.run (half-open interval, open bounds); not a small patch.'))
 
+for key in ('collect_results_list:raises-ValueError:collected[cr.hash_key].zinp[r.subset_indexes] = r.zinp',
+            'collect_results_list:raises-IndexError:collected[cr.hash_key].zinp[r.subset_indexes] = r.zinp'):
+    findings.append(dict(
+        property='C06', rule='C06.collect', key=key, status='known',
+        what='collect_results_list scatters the depth / position arrays of every ContextResult unguarded; when the stream has no such axis the '
+             'producers hand over an empty array, so any run with a partial window and no z (or lat / lon) column raises (ValueError: cannot assign 0 input values; '
+             'or IndexError when an all-covering context rebound the accumulator to the empty array first). PandasStore.save guards the same fields with .size != 0. '
+             'Seen with NumpyStream / PandasStream, two contexts, table without z.',
+        why_not_fixed='guarding the four scatters changes what the stores later write for absent axes (all-masked columns vs none); needs a maintainer decision.'))
+
 fixed = [
     'fixed: property=C09 968352c spike_test ignored suspect_threshold=0 / fail_threshold=0 (truthiness gates); also the C16 clause "a threshold given as zero"',
     'fixed: property=C10 cee7a58 rate_of_change_test accepted inp / tinp of different lengths (silent broadcast) instead of raising ValueError',
